@@ -44,14 +44,25 @@ func (t *TransactionBase) Success() {
 }
 
 // You must acquire write lock on t.mutex before calling this function!
+//
+// A transaction finishes only once: the finally callback is not called again
+// and the result (Err) does not change once the transaction is done.
 func (t *TransactionBase) finish() {
+	if t.isDone() {
+		return
+	}
 	if t.finally != nil {
 		t.finally()
 	}
+	close(t.done)
+}
+
+func (t *TransactionBase) isDone() bool {
 	select {
 	case <-t.done:
+		return true
 	default:
-		close(t.done)
+		return false
 	}
 }
 
@@ -68,6 +79,9 @@ func (t *TransactionBase) Fail(e error) {
 	t.mutex.Lock()
 	defer t.mutex.Unlock()
 
+	if t.isDone() {
+		return
+	}
 	t.err = e
 	t.finish()
 }
